@@ -124,6 +124,9 @@ struct World<'s, G: LatticeGen> {
     delivered: u64,
     sends_after_kickoff: u64,
     flood: bool,
+    /// sensitivity aid (env E6_C02_RUN_LEVEL_ONLY, never set by the registered commands): switch
+    /// the per-merge flag oracle off to show that the run-level flood oracles catch flag errors too
+    run_level_only: bool,
 }
 
 fn bits(mut m: u64) -> impl Iterator<Item = usize> {
@@ -177,7 +180,7 @@ impl<'s, G: LatticeGen> World<'s, G> {
     /// The single place where the real `merge` runs on a replica's state (local update, delivery,
     /// re-delivery). In C02 mode the flag oracle is evaluated here, on every call.
     fn do_merge(&mut self, r: usize, m: &G::Msg, what: &str) -> bool {
-        let need_before = self.mode == Mode::C02;
+        let need_before = self.mode == Mode::C02 && !self.run_level_only;
         let before = if need_before { Some(self.reps[r].st.clone()) } else { None };
         let flag = G::merge(&mut self.reps[r].st, m.clone());
         self.sim.probe(if flag { "flag_true" } else { "flag_false" });
@@ -578,6 +581,7 @@ pub fn run<G: LatticeGen>(sim: &mut Sim, mode: Mode) -> Outcome {
         q: BTreeMap::new(), qseq: 0, now: 0, part: None, updates, issued: start_ids, acked: start_ids,
         send_no: 0, last_no: vec![0; 64], delivered_nos: BTreeSet::new(), faults_on: true, viol: None, events: 0, delivered: 0,
         sends_after_kickoff: 0, flood: false,
+        run_level_only: std::env::var_os("E6_C02_RUN_LEVEL_ONLY").is_some(),
     };
     for r in 0..n {
         let fp = G::fp(&w.reps[r].st);
